@@ -57,10 +57,39 @@ type Hub struct {
 	links  map[[2]peer.ID]*link
 	seed   uint64
 	MaxLag time.Duration // upper bound of the pseudo-random per-message link delay
+	act    map[string]*activity
+}
+
+// activity of one session on the hub (all message types): number of sends + deliveries and the time
+// of the last one.  The runner's late readers use it as the event "the session has gone quiet".
+type activity struct {
+	n    int
+	last time.Time
+}
+
+func (h *Hub) touch(sessionID string) { // guarded by h.mu
+	a := h.act[sessionID]
+	if a == nil {
+		a = &activity{}
+		h.act[sessionID] = a
+	}
+	a.n++
+	a.last = time.Now()
+}
+
+// Activity returns how many transport events (sends and deliveries) the session has had and when
+// the last one happened.
+func (h *Hub) Activity(sessionID string) (int, time.Time) {
+	h.mu.Lock()
+	defer h.mu.Unlock()
+	if a := h.act[sessionID]; a != nil {
+		return a.n, a.last
+	}
+	return 0, time.Time{}
 }
 
 func NewHub(seed uint64) *Hub {
-	return &Hub{nodes: map[peer.ID]*Comm{}, links: map[[2]peer.ID]*link{}, seed: seed, MaxLag: 3 * time.Millisecond}
+	return &Hub{nodes: map[peer.ID]*Comm{}, links: map[[2]peer.ID]*link{}, seed: seed, MaxLag: 3 * time.Millisecond, act: map[string]*activity{}}
 }
 
 func (h *Hub) rnd() uint64 { // splitmix64, guarded by h.mu
@@ -117,6 +146,7 @@ func (c *Comm) Broadcast(peers peer.IDSlice, msg []byte, msgType comm.MessageTyp
 		if c.hub.MaxLag > 0 {
 			lag = time.Duration(c.hub.rnd() % uint64(c.hub.MaxLag))
 		}
+		c.hub.touch(sessionID)
 		c.hub.mu.Unlock()
 		if dst == nil {
 			continue
@@ -125,6 +155,9 @@ func (c *Comm) Broadcast(peers peer.IDSlice, msg []byte, msgType comm.MessageTyp
 		l.push(func() {
 			time.Sleep(lag)
 			dst.deliver(w)
+			c.hub.mu.Lock()
+			c.hub.touch(sessionID)
+			c.hub.mu.Unlock()
 		})
 	}
 	return nil
